@@ -98,8 +98,8 @@ type Adapter struct {
 	ibcKey   storetypes.StoreKey
 	tokT     common.Address            // ERC-20 contract of T
 	tokV     map[string]common.Address // per channel: ERC-20 contract of V
-	recorder common.Address            // stores CALLER in slot 0
-	reverter common.Address            // SSTORE(1,1) then REVERT
+	Recorder common.Address            // stores CALLER in slot 0
+	Reverter common.Address            // SSTORE(1,1) then REVERT
 	treasury *helpers.Signer
 	relayer  *helpers.Signer
 	extAddr  string            // an address on the other chain
@@ -165,8 +165,10 @@ func derivedSender(srcPort, srcChannel, sender string) common.Address {
 	return common.BytesToAddress(h.Sum(nil))
 }
 
-func New(t *testing.T, c Consts) *Adapter {
-	w := world.New(t, 2)
+func New(t *testing.T, c Consts) *Adapter { return NewOn(world.New(t, 2), c) }
+
+// NewOn builds the IBC world on an existing chain (it runs one real block first).
+func NewOn(w *world.W, c Consts) *Adapter {
 	a := &Adapter{W: w, C: c, baseSeq: map[string]uint64{}, baseIn: map[string]uint64{}}
 	a.erc20Key = w.App.GetKey(erc20types.StoreKey)
 	a.ibcKey = w.App.GetKey(exported.StoreKey)
@@ -227,8 +229,8 @@ func New(t *testing.T, c Consts) *Adapter {
 	}
 
 	// ---- contracts for memo calls
-	a.recorder = a.deploy(ctx, common.FromHex("3360005500"))           // CALLER PUSH1 0 SSTORE STOP
-	a.reverter = a.deploy(ctx, common.FromHex("600160015560006000fd")) // PUSH1 1 PUSH1 1 SSTORE PUSH1 0 PUSH1 0 REVERT
+	a.Recorder = a.Deploy(ctx, common.FromHex("3360005500"))           // CALLER PUSH1 0 SSTORE STOP
+	a.Reverter = a.Deploy(ctx, common.FromHex("600160015560006000fd")) // PUSH1 1 PUSH1 1 SSTORE PUSH1 0 PUSH1 0 REVERT
 
 	// ---- T that arrived earlier over every channel.  WORLD SHORTCUT (see assumptions): on this tree ibc-go writes
 	// bank metadata for every voucher it mints, after which crosschain.ManyToOne takes the voucher for a base denom
@@ -290,8 +292,8 @@ func (a *Adapter) nextSend(ctx sdk.Context, ch string) uint64 {
 	return n
 }
 
-// deploy creates a contract with the given runtime code (CODECOPY/RETURN init header) from the treasury.
-func (a *Adapter) deploy(ctx sdk.Context, runtime []byte) common.Address {
+// Deploy creates a contract with the given runtime code (CODECOPY/RETURN init header) from the treasury.
+func (a *Adapter) Deploy(ctx sdk.Context, runtime []byte) common.Address {
 	mustf(len(runtime) < 256, "runtime too long")
 	n := byte(len(runtime))
 	// PUSH1 n  DUP1  PUSH1 0x0b  PUSH1 0  CODECOPY  PUSH1 0  RETURN  (11 bytes), then the runtime code
@@ -484,9 +486,9 @@ func (a *Adapter) settle(ctx sdk.Context, kind, ch string, seq uint64, rel bool)
 	return ctx, "ok"
 }
 
-// recv lets the other chain send a packet over THEIR end of ch (commitment + sequence written as
+// Recv lets the other chain send a packet over THEIR end of ch (commitment + sequence written as
 // the other chain would) and relays it to fxcore with the real MsgRecvPacket.
-func (a *Adapter) recv(ctx sdk.Context, ch, receiver, denom string, n int64, sender, memo string) (uint64, string) {
+func (a *Adapter) Recv(ctx sdk.Context, ch, receiver, denom string, n int64, sender, memo string) (uint64, string) {
 	ck := a.W.App.IBCKeeper.ChannelKeeper
 	th := Their(ch)
 	seq := a.nextSend(ctx, th)
@@ -550,9 +552,9 @@ func (a *Adapter) Memo(class string) string {
 	case "junk":
 		return `{"wasm":{"contract":"x","msg":{}}}`
 	case "good", "goodAs":
-		return call(a.recorder)
+		return call(a.Recorder)
 	case "bad":
-		return call(a.reverter)
+		return call(a.Reverter)
 	}
 	panic("memo class " + class)
 }
@@ -599,7 +601,7 @@ func (a *Adapter) Apply(ctx sdk.Context, op graph.Op) (sdk.Context, string) {
 		default:
 			panic("denom class")
 		}
-		_, res = a.recv(cctx, ch, receiver, denom, op.Int("a"), a.senderOf(op.Str("memo")), a.Memo(op.Str("memo")))
+		_, res = a.Recv(cctx, ch, receiver, denom, op.Int("a"), a.senderOf(op.Str("memo")), a.Memo(op.Str("memo")))
 	case "RecvReplay":
 		seq := uint64(op.Int("s")) + a.baseIn[ch]
 		packet, logged := a.getIn(cctx, ch, seq)
@@ -619,9 +621,9 @@ func (a *Adapter) Apply(ctx sdk.Context, op graph.Op) (sdk.Context, string) {
 	return ctx, res
 }
 
-// ackOf classifies the acknowledgement fxcore stored for inbound packet (ch, seq): "none", "ok"
+// AckOf classifies the acknowledgement fxcore stored for inbound packet (ch, seq): "none", "ok"
 // (the ICS-20 success acknowledgement) or "err".
-func (a *Adapter) ackOf(ctx sdk.Context, ch string, seq uint64) string {
+func (a *Adapter) AckOf(ctx sdk.Context, ch string, seq uint64) string {
 	st := ctx.KVStore(a.ibcKey)
 	bz := st.Get(host.PacketAcknowledgementKey(port, ch, seq))
 	rcpt := st.Has(host.PacketReceiptKey(port, ch, seq))
@@ -700,7 +702,7 @@ func (a *Adapter) Project(ctx sdk.Context) any {
 		out[ch], rel[ch] = outs, rels
 		acks := make([]string, c.MaxIn+1)
 		for i := range acks {
-			acks[i] = a.ackOf(ctx, ch, a.baseIn[ch]+uint64(i+1))
+			acks[i] = a.AckOf(ctx, ch, a.baseIn[ch]+uint64(i+1))
 		}
 		ack[ch] = acks
 		ea := transfertypes.GetEscrowAddress(port, ch)
@@ -726,7 +728,7 @@ func (a *Adapter) BalanceOf(ctx sdk.Context, token, who common.Address) int64 {
 
 // caller renders slot 0 of the recorder contract: who the EVM saw as msg.sender of the last memo call.
 func (a *Adapter) caller(ctx sdk.Context) string {
-	v := a.W.App.EvmKeeper.GetState(ctx, a.recorder, common.Hash{})
+	v := a.W.App.EvmKeeper.GetState(ctx, a.Recorder, common.Hash{})
 	if v == (common.Hash{}) {
 		return "none"
 	}
@@ -744,4 +746,33 @@ func (a *Adapter) caller(ctx sdk.Context) string {
 		}
 	}
 	return "?" + strings.ToLower(addr.Hex())
+}
+
+// ---- accessors used by the C18 package (harness/tolerated), which reuses this world
+
+func (a *Adapter) ExtAddr() string                          { return a.extAddr }
+func (a *Adapter) TokV(ch string) common.Address            { return a.tokV[ch] }
+func (a *Adapter) NextIn(ctx sdk.Context, ch string) uint64 { return a.nextSend(ctx, Their(ch)) }
+func (a *Adapter) BaseIn(ch string) uint64                  { return a.baseIn[ch] }
+
+// CallMemo is the memo of an IBC call to an arbitrary contract.
+func (a *Adapter) CallMemo(to string) string {
+	bz, err := a.W.App.AppCodec().MarshalInterfaceJSON(&ibcmwtypes.IbcCallEvmPacket{To: to, Value: sdkmath.ZeroInt(), Data: ""})
+	must(err)
+	return string(bz)
+}
+
+// DenomOf maps a denom class of IbcTransfer.tla to the packet denom over our channel ch.
+func DenomOf(class, ch string) string {
+	switch class {
+	case "fx":
+		return port + "/" + Their(ch) + "/" + fxtypes.DefaultDenom
+	case "tb":
+		return theirT
+	case "t1":
+		return theirV
+	case "vx":
+		return theirJunk
+	}
+	panic("denom class " + class)
 }
